@@ -4,7 +4,6 @@ package main
 
 import (
 	"fmt"
-	"regexp"
 	"strings"
 
 	"slogverif/seq"
@@ -20,8 +19,8 @@ func (e *enumerator) delFields() {
 		one(&Step{K: KDel, Keys: []string{"tag", "aux"}}),
 		one(&Step{K: KDel, Keys: []string{"msg", "tag", "aux", "lvl"}}),
 		one(&Step{K: KDel, Keys: []string{"tag", "tag"}}),
-		one(&Step{K: KDel, Keys: nil}),
-		one(&Step{K: KDel, Keys: []string{"nosuch"}}),
+		e.bad(&Step{K: KDel, Keys: nil}),
+		e.bad(&Step{K: KDel, Keys: []string{"nosuch"}}),
 	}
 	vals := []*Rec{rec("m", "T", "X", "L"), rec("", "", "", ""), rec("m", "", "X", ""), rec("", "T", "", "L")}
 	e.leafGroup("leaf/delFields", configs, func([]*Step) []*Rec { return vals })
@@ -32,6 +31,7 @@ func (e *enumerator) mapValue() {
 		{{"a", "ALPHA"}, {"b", ""}},
 		{{"a", "b"}, {"b", "a"}},
 		{{"é", "e"}, {" ", "space"}},
+		{{"Ab", "mixed"}, {"sk", "fold"}},
 	}
 	var configs [][]*Step
 	for _, m := range mappings {
@@ -40,13 +40,21 @@ func (e *enumerator) mapValue() {
 		}
 	}
 	configs = append(configs,
-		one(&Step{K: KMap, Key: "nosuch", Mapping: mappings[0]}),
-		one(&Step{K: KMap, Key: "lvl", Mapping: nil}),
+		e.bad(&Step{K: KMap, Key: "nosuch", Mapping: mappings[0]}),
+		e.bad(&Step{K: KMap, Key: "lvl", Mapping: nil}),
 	)
+	lvls := []string{"", "a", "b", "c", "A", "a ", "é", " ", "ALPHA"}
+	for _, m := range mappings {
+		for _, kv := range m {
+			lvls = append(lvls, kv[0])
+			lvls = append(lvls, twins(kv[0])...) // values that differ from a key only by case / folding / a blank / a NUL
+		}
+	}
 	var vals []*Rec
-	for _, lvl := range []string{"", "a", "b", "c", "A", "a ", "é", " ", "ALPHA"} {
+	for _, lvl := range lvls {
 		vals = append(vals, rec("m", "T", "X", lvl))
 	}
+	vals = dedupRecs(vals)
 	e.leafGroup("leaf/mapValue", configs, func([]*Step) []*Rec { return vals })
 }
 
@@ -54,14 +62,17 @@ func (e *enumerator) unescape() {
 	um, ut := &Step{K: KUnesc, Key: "msg"}, &Step{K: KUnesc, Key: "tag"}
 	configs := [][]*Step{
 		{um}, {ut}, {um, ut}, {ut, um}, {um, um},
-		one(&Step{K: KUnesc, Key: "nosuch"}),
+		e.bad(&Step{K: KUnesc, Key: "nosuch"}),
 	}
 	texts := []string{"", "a", `\n`, `a\nb`, `\\`, `\\n`, `\`, `a\`, `\x`, `\\\`, `\t\r\b\f`, `a\\\nb`, `\é`, "日\\n本", `\n\n`, `x\Xhello\n`,
 		"real\nnewline\\n", `\\\\`, `\"q\"`, `\0\a\v`, `tail\\`}
+	// flag-major order: the record sent second through the same instance (the next one of the menu) carries the same
+	// Unescaped flag and a DIFFERENT text and tag, so that both records of a case take the same write path with different
+	// contents (a result parked in per-instance scratch memory is then overwritten and seen by the re-read of the first).
 	var vals []*Rec
-	for _, t := range texts {
-		for _, un := range []bool{false, true} {
-			r := rec(t, `t\tg`, "X", "L")
+	for _, un := range []bool{false, true} {
+		for i, t := range texts {
+			r := rec(t, []string{`t\tg`, `u\nvw`, `\\x\ry`}[i%3], "X", "L")
 			r.Unescaped = un
 			vals = append(vals, r)
 		}
@@ -77,9 +88,14 @@ func (e *enumerator) replace() {
 	}
 	var configs [][]*Step
 	for _, p := range pr {
-		configs = append(configs, one(&Step{K: KReplace, Key: "msg", Pattern: p[0], Repl: p[1]}))
+		st := &Step{K: KReplace, Key: "msg", Pattern: p[0], Repl: p[1]}
+		if p[0] == "[" || p[0] == "" {
+			configs = append(configs, e.bad(st))
+			continue
+		}
+		configs = append(configs, one(st))
 	}
-	configs = append(configs, one(&Step{K: KReplace, Key: "nosuch", Pattern: "a", Repl: "b"}))
+	configs = append(configs, e.bad(&Step{K: KReplace, Key: "nosuch", Pattern: "a", Repl: "b"}))
 	var vals []*Rec
 	for _, t := range []string{"", "a", "aaa", "ab", "abab", "b", "xyz", "a1b22", "é", "日本", "bab", "a--b12345", "\n"} {
 		vals = append(vals, rec(t, "T", "X", "L"))
@@ -100,9 +116,14 @@ func (e *enumerator) extractRegex() {
 	}
 	var configs [][]*Step
 	for _, p := range patterns {
-		configs = append(configs, one(&Step{K: KExtract, Key: "msg", Pattern: p}))
+		st := &Step{K: KExtract, Key: "msg", Pattern: p}
+		if p == "(?P<tag>" || p == "" {
+			configs = append(configs, e.bad(st))
+			continue
+		}
+		configs = append(configs, one(st))
 	}
-	configs = append(configs, one(&Step{K: KExtract, Key: "nosuch", Pattern: "a"}))
+	configs = append(configs, e.bad(&Step{K: KExtract, Key: "nosuch", Pattern: "a"}))
 	var vals []*Rec
 	for _, t := range []string{"", "abc=123", "abc=", "=1", "y", "xy", "zy x", "a1b22", "ab", "production/hourly.log.202012311030", "testing/main.log", "é=1", "ab ab"} {
 		vals = append(vals, rec(t, "T0", "X", "L"))
@@ -117,8 +138,9 @@ func hit() *Step { return add(Pair{"tag", Tmpl{lit("HIT")}}) }
 
 func (e *enumerator) matchers() {
 	var conds []Cond
+	strArgs := []string{"a", "ab", "é", " ", "a c", "12", "Ab", "sk"}
 	for _, op := range []string{"", "str", "str-eq", "str-not", "str-start", "str-end", "str-contain"} {
-		for _, arg := range []string{"a", "ab", "é", " ", "a c", "12"} {
+		for _, arg := range strArgs {
 			conds = append(conds, Cond{"lvl", op, arg})
 		}
 	}
@@ -136,18 +158,27 @@ func (e *enumerator) matchers() {
 		conds = append(conds, Cond{"lvl", "regex", r})
 	}
 	// rejected by unmarshalling
-	conds = append(conds, Cond{"lvl", "str", ""}, Cond{"lvl", "", ""}, Cond{"lvl", "str-any", "x"}, Cond{"lvl", "len-gt", "x"}, Cond{"lvl", "regex", "["},
-		Cond{"lvl", "glob", "["}, Cond{"lvl", "hello", "a"}, Cond{"lvl", "str-contain", ""})
+	badConds := []Cond{{"lvl", "str", ""}, {"lvl", "", ""}, {"lvl", "str-any", "x"}, {"lvl", "len-gt", "x"}, {"lvl", "regex", "["},
+		{"lvl", "glob", "["}, {"lvl", "hello", "a"}, {"lvl", "str-contain", ""}}
+	nGood := len(conds)
+	conds = append(conds, badConds...)
 	values := []string{"", "a", "b", "c", "ab", "abc", "ba", "aXc", "a c", " ", "é", "aé", "aéc", "abcdef", "12", "x12y", "*", "cd", "bb", "bc", "abXbYc",
 		"api.foo.com", "api.foo.co.uk", "api.foo.org", "api..com", `PUT "/new", status=201 params={"name": "new entry"}`,
 		`GET "/logs", status=200 params={"format":"json"}`, "POST x", "a\nb", "syslog", "local7", "ac", "abc\n"}
+	// the value menu is derived from the argument menu as well: for every argument its twins (other letter case, Unicode
+	// characters that case-fold to it, a leading / trailing blank, a trailing NUL, doubled)
+	for _, a := range strArgs {
+		values = append(values, a)
+		values = append(values, twins(a)...)
+	}
 	var vals []*Rec
 	for _, v := range values {
 		vals = append(vals, rec("m", "T0", "X", v))
 	}
+	vals = dedupRecs(vals)
 	var opOrder []string
 	byOp := map[string][][]*Step{}
-	for _, c := range conds {
+	for ci, c := range conds {
 		m := Match{c}
 		op := c.Op
 		if op == "" {
@@ -156,10 +187,14 @@ func (e *enumerator) matchers() {
 		if _, ok := byOp[op]; !ok {
 			opOrder = append(opOrder, op)
 		}
+		wrap := one
+		if ci >= nGood {
+			wrap = e.bad
+		}
 		byOp[op] = append(byOp[op],
-			one(&Step{K: KIf, M: m, Then: one(hit())}),
-			one(&Step{K: KSwitch, Cases: []Case{{M: m, Then: one(hit())}}}),
-			one(&Step{K: KDrop, M: m, Pct: 100, Label: "matched"}),
+			wrap(&Step{K: KIf, M: m, Then: one(hit())}),
+			wrap(&Step{K: KSwitch, Cases: []Case{{M: m, Then: one(hit())}}}),
+			wrap(&Step{K: KDrop, M: m, Pct: 100, Label: "matched"}),
 		)
 	}
 	for _, op := range opOrder {
@@ -191,66 +226,6 @@ func (e *enumerator) matchers() {
 	vals = append(vals, rec("ab", "T0", "", "ab"))
 	e.leafGroup("match/and", configs, func([]*Step) []*Rec { return vals })
 }
-
-// globRekey splits glob mismatches into classes by features of the pattern and of the value (the matcher is a
-// third-party library with several independent defects; one key per feature set keeps them apart).
-func globRekey(prog []*Step, in *Rec, key string) string {
-	if !strings.HasSuffix(key, "mismatch:match/glob") {
-		return key
-	}
-	var pattern string
-	walk(prog, func(s *Step) {
-		for _, c := range s.M {
-			if c.Op == "glob" {
-				pattern = c.Arg
-			}
-		}
-		for _, cs := range s.Cases {
-			for _, c := range cs.M {
-				if c.Op == "glob" {
-					pattern = c.Arg
-				}
-			}
-		}
-	})
-	value := in.F[fLvl]
-	depth, starInBraces := 0, false
-	for i := 0; i < len(pattern); i++ {
-		switch pattern[i] {
-		case '\\':
-			i++
-		case '{':
-			depth++
-		case '}':
-			depth--
-		case '*':
-			if depth > 0 {
-				starInBraces = true
-			}
-		}
-	}
-	multibyte := false
-	for i := 0; i < len(value); i++ {
-		if value[i] >= 0x80 {
-			multibyte = true
-		}
-	}
-	// one class per suspected root cause, by priority
-	class := "other"
-	switch {
-	case starInBraces:
-		class = "star-inside-alternatives"
-	case strings.Contains(pattern, "?") && multibyte:
-		class = "question-mark-vs-multibyte-value"
-	case strings.Contains(pattern, "?") && value == "":
-		class = "question-mark-vs-empty-value"
-	case globLiteralStarLiteral.MatchString(pattern):
-		class = "star-between-literals"
-	}
-	return key + ":" + class
-}
-
-var globLiteralStarLiteral = regexp.MustCompile(`^[a-z]+\*+[a-z]+$`)
 
 // globSystematic: every glob made of 1..3 (quick) / 1..4 (thorough) tokens x every value over {a,b,é} up to length 4.
 func (e *enumerator) globSystematic() {
@@ -325,23 +300,41 @@ func reducedLeaves() []*Step {
 
 func (e *enumerator) pairs() {
 	leaves := reducedLeaves()
+	// two DIFFERENT values with escapes, boundaries and keys per field (msgs[0] / msgs[1], tags[1] / tags[2]): a record and
+	// its successor through the same instance then take the same write paths with different contents
+	msgs := []string{`[cls ] - key=12 a\nb /vh:dead-beef`, `[Other] - k=7 x\ty\\z /w:0123-abcd`, "abcdefghijklmnop", "k=1", ""}
+	tags := []string{"", `T0\tT0T0`, `U1\nU1`}
+	lvls := []string{"a", "b"}
+	type coord struct{ m, t, l int }
 	var vals []*Rec
-	for _, msg := range []string{`[cls ] - key=12 a\nb /vh:dead-beef`, "abcdefghijklmnop", "k=1", ""} {
-		for _, tag := range []string{"", `T0\tT0T0`} {
-			for _, lvl := range []string{"a", "b"} {
+	var coords []coord
+	for mi, msg := range msgs {
+		for ti, tag := range tags {
+			for li, lvl := range lvls {
 				vals = append(vals, rec(msg, tag, "X", lvl))
+				coords = append(coords, coord{mi, ti, li})
 			}
 		}
 	}
-	// vals index = msg*4 + tag*2 + lvl: stride 1 changes lvl for the second record, stride 4 changes msg
+	index := func(c coord) int { return (c.m*len(tags)+c.t)*len(lvls) + c.l }
+	// the record sent second: always another msg and another tag; "same": the same lvl (both records take the same branch
+	// of an if on lvl), "flip": the other lvl
+	successor := func(vi int, flip bool) *Rec {
+		c := coords[vi]
+		n := coord{(c.m + 1) % len(msgs), (c.t + 1) % len(tags), c.l}
+		if flip {
+			n.l = 1 - c.l
+		}
+		return vals[index(n)]
+	}
 	shapes := []struct {
-		name   string
-		build  func(a, b *Step) []*Step
-		stride int
+		name  string
+		build func(a, b *Step) []*Step
+		flip  bool
 	}{
-		{"seq", func(a, b *Step) []*Step { return []*Step{a, b} }, 1},
-		{"if-lvl", func(a, b *Step) []*Step { return []*Step{a, {K: KIf, M: Match{{"lvl", "", "a"}}, Then: one(b)}} }, 1},
-		{"if-msglen", func(a, b *Step) []*Step { return []*Step{a, {K: KIf, M: Match{{"msg", "len-gt", "5"}}, Then: one(b)}} }, 4},
+		{"seq", func(a, b *Step) []*Step { return []*Step{a, b} }, true},
+		{"if-lvl", func(a, b *Step) []*Step { return []*Step{a, {K: KIf, M: Match{{"lvl", "", "a"}}, Then: one(b)}} }, false},
+		{"if-msglen", func(a, b *Step) []*Step { return []*Step{a, {K: KIf, M: Match{{"msg", "len-gt", "5"}}, Then: one(b)}} }, true},
 	}
 	e.ctx.Group("pairs")
 	for _, a := range leaves {
@@ -369,7 +362,7 @@ func (e *enumerator) pairs() {
 						}
 						continue
 					}
-					e.emitKeyed(scope, "pairs/"+pid+"/"+recID(v), prog, v, vals[(vi+sh.stride)%len(vals)], rekey)
+					e.emitKeyed(scope, "pairs/"+pid+"/"+recID(v), prog, v, successor(vi, sh.flip), rekey)
 				}
 			}
 		}
@@ -428,11 +421,14 @@ func (e *enumerator) contexts() {
 		p := p
 		level0 = append(level0, ctxShape{p.name, func(x *Step, next *byte) []*Step { return p.place(x, next) }})
 	}
+	// per lvl three records; the first two differ in every byte that matters (escapes, label, keys) and follow each other,
+	// so that the record sent second through the same instance takes the same path with different content
 	var vals []*Rec
 	for _, lvl := range []string{"a", "b", "c"} {
-		for _, msg := range []string{`[cls ] - key=12 a\nb /vh:dead-beef`, "k=1"} {
-			vals = append(vals, rec(msg, `T0\tT0T0`, "X", lvl))
-		}
+		vals = append(vals,
+			rec(`[cls ] - key=12 a\nb /vh:dead-beef`, `T0\tT0T0`, "X", lvl),
+			rec(`[Other] - k=7 x\ty\\z /w:0123-abcd`, `U1\nU1`, "X", lvl),
+			rec("k=1", `T0\tT0T0`, "X", lvl))
 	}
 	leaves := reducedLeaves()
 	shapes := level0
@@ -653,7 +649,13 @@ func (e *enumerator) nesting() {
 
 func (e *enumerator) sampling() {
 	ctx := e.ctx
-	const matchedTarget = 300
+	// every prefix up to matchedTarget matched records: beyond 1024 and 2048 (counters kept in windows or narrow integers
+	// show only there); the bare drop on an all-matching stream much further (beyond 2^16; thorough beyond 2^20, and a few
+	// rates beyond 2^31/100, where a 32-bit "100*dropped" would wrap)
+	matchedTarget, longTarget := 2100, 70_000
+	if ctx.Thorough() {
+		matchedTarget, longTarget = 5000, 1_100_000
+	}
 	condA := Match{{"lvl", "", "a"}}
 	wrappers := []struct {
 		name string
@@ -683,44 +685,111 @@ func (e *enumerator) sampling() {
 				d := &Step{K: KDrop, M: condA, Pct: rate, Label: "sampled"}
 				prog := w.wrap(d)
 				ctx.Case(id, true, RenderYAML(prog)+"stream lvl pattern: "+strings.Join(p.lvls, ","), func() (string, string) {
-					return checkSampling(prog, w.name == "block", rate, p.lvls, matchedTarget)
+					return checkSampling(prog, w.name == "block", rate, p.lvls, matchedTarget, 1)
 				})
 			}
 		}
 	}
+	// two instances built from ONE parsed configuration (the agent builds one chain per connection / pipeline), fed
+	// alternately 1 : 2; each must keep its own rate
+	ctx.Group("sampling/two-instances")
+	for rate := 1; rate <= 99; rate++ {
+		for _, p := range patterns[:3] {
+			rate, p := rate, p
+			if !ctx.Mine() {
+				ctx.Skip()
+				continue
+			}
+			prog := one(&Step{K: KDrop, M: condA, Pct: rate, Label: "sampled"})
+			ctx.Case(fmt.Sprintf("sampling2/%d/%s", rate, p.name), true, RenderYAML(prog)+"two instances, stream lvl pattern: "+strings.Join(p.lvls, ","), func() (string, string) {
+				return checkSampling(prog, false, rate, p.lvls, matchedTarget/2, 2)
+			})
+		}
+	}
+	ctx.Group("sampling/long-stream")
+	long := func(rate, target int) {
+		if !ctx.Mine() {
+			ctx.Skip()
+			return
+		}
+		prog := one(&Step{K: KDrop, M: condA, Pct: rate, Label: "sampled"})
+		ctx.Case(fmt.Sprintf("sampling-long/%d/%d", rate, target), true, RenderYAML(prog)+fmt.Sprintf("every record matches, %d records", target), func() (string, string) {
+			return checkSampling(prog, false, rate, []string{"a"}, target, 1)
+		})
+	}
+	for rate := 1; rate <= 99; rate++ {
+		long(rate, longTarget)
+	}
+	if ctx.Thorough() {
+		for _, rate := range []int{1, 33, 50, 99} {
+			long(rate, (1<<31)/100+100_000)
+		}
+	}
 }
 
-func checkSampling(prog []*Step, blockWrapper bool, rate int, lvls []string, matchedTarget int) (string, string) {
+type samplingState struct {
+	ri                                            *realInstance
+	matched, dropped, droppedBytes, retainedBytes int64
+}
+
+// checkSampling feeds records with the lvl pattern until every instance has seen matchedTarget matched records.
+// With two instances (built from one parsed configuration) record i goes to instance 0 if i%3 == 0, else to instance 1.
+func checkSampling(prog []*Step, blockWrapper bool, rate int, lvls []string, matchedTarget int, instances int) (string, string) {
 	yamlText := RenderYAML(prog)
 	cfgs, err := loadReal(yamlText)
 	if err != nil {
 		return "harness:generated-program-rejected", err.Error() + "\n" + yamlText
 	}
-	ri := newRealInstance(cfgs)
-	var matched, dropped, droppedBytes, retainedBytes int64
-	for i := 0; matched < int64(matchedTarget); i++ {
-		in := rec("m", "T", "", lvls[i%len(lvls)])
-		in.RawLength = 100 + i%7
+	states := make([]*samplingState, instances)
+	for k := range states {
+		states[k] = &samplingState{ri: newRealInstance(cfgs)}
+	}
+	fed := make([]int, instances)
+	for i := 0; ; i++ {
+		st := states[0]
+		which := 0
+		if instances > 1 && i%3 != 0 {
+			which = 1
+			st = states[1]
+		}
+		if st.matched >= int64(matchedTarget) {
+			done := true
+			for _, o := range states {
+				if o.matched < int64(matchedTarget) {
+					done = false
+				}
+			}
+			if done {
+				return "", ""
+			}
+			continue
+		}
+		n := fed[which]
+		fed[which]++
+		in := rec("m", "T", "", lvls[n%len(lvls)])
+		in.RawLength = 100 + n%7
 		isMatch := in.F[fLvl] == "a"
 		var out *Rec
 		var wasDropped bool
-		if site, detail := seq.Catch(func() { out, wasDropped = ri.run(in) }); site != "" {
+		if site, detail := seq.Catch(func() { out, wasDropped = st.ri.run(in) }); site != "" {
 			return "panic:" + site, detail
 		}
-		where := fmt.Sprintf("record #%d (lvl=%s) after %d matched / %d dropped, rate %d%%\n%s", i, in.F[fLvl], matched, dropped, rate, yamlText)
+		where := func() string {
+			return fmt.Sprintf("record #%d of instance %d (lvl=%s) after %d matched / %d dropped, rate %d%%\n%s", n, which, in.F[fLvl], st.matched, st.dropped, rate, yamlText)
+		}
 		if !isMatch && wasDropped {
-			return "sampling:unmatched-record-dropped", where
+			return "sampling:unmatched-record-dropped", where()
 		}
 		if isMatch {
-			matched++
+			st.matched++
 			if wasDropped {
-				dropped++
-				droppedBytes += int64(in.RawLength)
+				st.dropped++
+				st.droppedBytes += int64(in.RawLength)
 			} else {
-				retainedBytes += int64(in.RawLength)
+				st.retainedBytes += int64(in.RawLength)
 			}
-			if dev := 100*dropped - int64(rate)*matched; dev > 100 || dev < -100 {
-				return "sampling:deviation-over-one-record", fmt.Sprintf("dropped=%d of matched=%d at rate %d%%: |dropped - rate*matched/100| = %.2f > 1\n%s", dropped, matched, rate, float64(dev)/100, where)
+			if dev := 100*st.dropped - int64(rate)*st.matched; dev > 100 || dev < -100 {
+				return "sampling:deviation-over-one-record", fmt.Sprintf("dropped=%d of matched=%d at rate %d%%: |dropped - rate*matched/100| = %.2f > 1\n%s", st.dropped, st.matched, rate, float64(dev)/100, where())
 			}
 		}
 		// fields: the drop itself edits nothing; in the block wrapper the marker before the drop always runs, the one after
@@ -733,13 +802,12 @@ func checkSampling(prog []*Step, blockWrapper bool, rate int, lvls []string, mat
 			}
 		}
 		if out.F[fMsg] != "m" || out.F[fTag] != "T" || out.F[fLvl] != in.F[fLvl] || out.F[fAux] != wantAux {
-			return "sampling:fields", fmt.Sprintf("real %s, expected aux=%q and the rest untouched\n%s", describeRec(out), wantAux, where)
+			return "sampling:fields", fmt.Sprintf("real %s, expected aux=%q and the rest untouched\n%s", describeRec(out), wantAux, where())
 		}
-		gotD, _ := ri.counter("sampled")
-		gotR, _ := ri.counter("!sampled")
-		if gotD != (counter{dropped, droppedBytes}) || gotR != (counter{matched - dropped, retainedBytes}) {
-			return "sampling:counter", fmt.Sprintf("label sampled: real %+v want {%d %d}; label !sampled: real %+v want {%d %d}\n%s", gotD, dropped, droppedBytes, gotR, matched-dropped, retainedBytes, where)
+		gotD, _ := st.ri.counter("sampled")
+		gotR, _ := st.ri.counter("!sampled")
+		if gotD != (counter{st.dropped, st.droppedBytes}) || gotR != (counter{st.matched - st.dropped, st.retainedBytes}) {
+			return "sampling:counter", fmt.Sprintf("label sampled: real %+v want {%d %d}; label !sampled: real %+v want {%d %d}\n%s", gotD, st.dropped, st.droppedBytes, gotR, st.matched-st.dropped, st.retainedBytes, where())
 		}
 	}
-	return "", ""
 }
